@@ -512,10 +512,11 @@ class CollectorHarness:
 coll_ops_st = st.lists(st.one_of(
     st.tuples(st.just('start'), st.integers(0, len(COLL_NS) - 1)),
     st.tuples(st.just('start'), st.integers(0, len(COLL_NS) - 1)),
+    st.tuples(st.just('start'), st.integers(0, len(COLL_NS) - 1)),
     st.tuples(st.just('same'), st.integers(0, len(COLL_NS) - 1)),
     st.tuples(st.just('stop'), st.integers(0, len(COLL_NS) - 1)),
     st.tuples(st.just('die'), st.integers(0, len(COLL_NS) - 1)),
-    st.tuples(st.just('collect'), st.sampled_from([0.5, 1.0, 5.0, 5.0, 10.0]))), min_size=1, max_size=40)
+    st.tuples(st.just('collect'), st.sampled_from([0.5, 1.0, 5.0, 5.0, 10.0]))), min_size=3, max_size=40)
 
 
 def run_collector_ops(period, ops):
